@@ -1227,7 +1227,6 @@ package decimal
 //@ func (x *Decimal) Rat(z *big.Rat) (*big.Rat, Accuracy)
 //@   nomerge
 //@   requires[wf] opnd(x) && (x.form == finite ==> len(x.mant) <= 10000000)
-//@   requires[size] x.form == finite ==> 0 - 1000000000 <= x.exp && x.exp <= 1000000000
 //@   ghost gN, gD
 //@   ensures[inf,C14] x.form == inf ==> result0 == nil && result1 == (x.neg ? 1 : 0 - 1)
 //@   ensures[exact,C14] x.form != inf ==> result0 != nil && result1 == 0
